@@ -8,7 +8,7 @@ RULES = {
     'H2': tables.rule_H2,
     'H3': tables.rule_H3,
     'H6': tables.rule_H6,
-    'F1': config.rule_F1, 'F2': config.rule_F2, 'F3': config.rule_F3, 'F4': config.rule_F4,
+    'F1': config.rule_F1, 'F2': config.rule_F2, 'F3': config.rule_F3, 'F4': config.rule_F4, 'F5': config.rule_F5,
     'G1': config.rule_G1, 'N4': config.rule_N4,
     'J1': state.rule_J1, 'J2': state.rule_J2, 'M': state.rule_M, 'D1': state.rule_D1, 'D3': state.rule_D3,
     'HASH': state.rule_HASH, 'N3': state.rule_N3,
@@ -17,12 +17,12 @@ RULES = {
     'A2': ownership.rule_A2, 'A5': ownership.rule_A5, 'A6': ownership.rule_A6, 'A7': ownership.rule_A7, 'A8': ownership.rule_A8,
     'L': contracts.rule_L, 'K': contracts.rule_K, 'E1': contracts.rule_E1, 'E2': contracts.rule_E2, 'E3': contracts.rule_E3,
     'E6': contracts.rule_E6, 'E7': contracts.rule_E7, 'D2': contracts.rule_D2, 'E9': contracts.rule_E9, 'E4': contracts.rule_E4,
-    'E10': contracts.rule_E10, 'E11': contracts.rule_E11, 'OPT': contracts.rule_OPT, 'OPTDEP': contracts.rule_OPTDEP, 'EQ1': contracts.rule_EQ1,
+    'E10': contracts.rule_E10, 'E11': contracts.rule_E11, 'OPT': contracts.rule_OPT, 'OPTDEP': contracts.rule_OPTDEP, 'EQ1': contracts.rule_EQ1, 'ITER1': contracts.rule_ITER1,
     'C': stream.rule_C, 'POSW': stream.rule_POSW, 'B1': stream.rule_B1, 'POST': stream.rule_POST, 'RB': stream.rule_RB, 'NOMOVE': stream.rule_NOMOVE,
     'I': dims.rule_I, 'B3': dims.rule_B3, 'N2a': dims.rule_N2a, 'IDX': dims.rule_IDX, 'TY1': dims.rule_TY1,
     'B2': mutate.rule_B2, 'WB': mutate.rule_WB, 'N1': mutate.rule_N1, 'N2': mutate.rule_N2, 'N5': mutate.rule_N5, 'D5': mutate.rule_D5,
     'E5': ingest.rule_E5, 'CHOKE': ingest.rule_CHOKE, 'LV': ingest.rule_LV,
-    'G2': mode.rule_G2, 'G3': mode.rule_G3, 'E8': mode.rule_E8,
+    'G2': mode.rule_G2, 'G3': mode.rule_G3, 'G5': mode.rule_G5, 'E8': mode.rule_E8,
     'H4': misc.rule_H4, 'ESC': misc.rule_ESC, 'DELEG': misc.rule_DELEG, 'PK': misc.rule_PK,
     'H5a': luts.rule_H5a, 'H5b': luts.rule_H5b, 'H5c': luts.rule_H5c,
 }
@@ -83,7 +83,7 @@ _p('C17', ['H6', 'DELEG', 'L', 'A7', 'E5', 'OPT', 'J1'],
    explanation="Constant folding of the chunk-size expression that reaches Bits.cut in Bits.tofile; delegation and guard "
                "dominance checks; ingest feature matrix.")
 
-_p('C09', ['F1', 'F2', 'F3', 'F4', 'G1', 'N4', 'A1', 'A4'],
+_p('C09', ['F1', 'F2', 'F3', 'F4', 'F5', 'G1', 'N4', 'A1', 'A4'],
    decided=["results never depend on cache hits, misses or evictions nor on option values in force earlier: every "
             "lru_cache'd function reaches no option read or mode-switched slot that is not part of its key",
             "nor on what was later done to previously returned objects: cached lists/Dtypes are never mutated",
@@ -176,7 +176,7 @@ _p('C07', ['E1', 'E2', 'E3', 'E11', 'OPT'],
    explanation="Sibling guard agreement over the search entry points; forward-or-validate dataflow of start/end; taint of "
                "the raw bytealigned parameter to the store-level search sinks.")
 
-_p('C08', ['J1', 'J2', 'L', 'A7', 'A8', 'A6', 'A3'],
+_p('C08', ['J1', 'J2', 'L', 'A7', 'A8', 'A6', 'A3', 'A1', 'A11', 'ITER1'],
    decided=["the complete observable state is the bit content: per-object fields are closed (__slots__) and _filename, "
             "immutable, modified_length, _pos are read only by the code whose role needs them; content operations "
             "reach no read of _pos/_filename",
@@ -201,7 +201,7 @@ _p('C10', ['D2', 'E9', 'J1', 'OPTDEP', 'A1'],
    explanation="Exception-translation and guard-dominance checks over the four setters, four getters, the decoders and the "
                "reader closures of DtypeDefinition.")
 
-_p('C13', ['HASH', 'J1', 'J2', 'D3', 'L', 'G3', 'EQ1', 'A7'],
+_p('C13', ['HASH', 'J1', 'J2', 'D3', 'L', 'G3', 'EQ1', 'A7', 'A1'],
    decided=["BitArray and BitStream are unhashable, Bits and ConstBitStream hash (MRO resolution incl. Python's implicit "
             "__hash__ = None); ordering operators return NotImplemented",
             "== / != / hash have one implementation each for all classes and reach no read of _pos or _filename, so they "
@@ -213,7 +213,7 @@ _p('C13', ['HASH', 'J1', 'J2', 'D3', 'L', 'G3', 'EQ1', 'A7'],
    explanation="MRO resolution of __hash__/__eq__/__ne__ per class, field-dependence reachability, handler check of the "
                "promotion TypeError.")
 
-_p('C16', ['A1', 'A5', 'A8', 'A10', 'A11', 'E6', 'K', 'C', 'L', 'G3', 'POSW'],
+_p('C16', ['A1', 'A3', 'A5', 'A8', 'A10', 'A11', 'E6', 'K', 'C', 'L', 'G3', 'POSW', 'F1'],
    decided=["operands are never modified by the non-in-place forms, including when both operands are the same object: no "
             "self store effect in the public operators of the immutable classes; mutated temporaries own fresh stores; "
             "BitStore-level binary operators and _copy build new stores",
@@ -226,7 +226,7 @@ _p('C16', ['A1', 'A5', 'A8', 'A10', 'A11', 'E6', 'K', 'C', 'L', 'G3', 'POSW'],
    explanation="Effect summaries per public operator, provenance of mutated temporaries, sibling guard agreement, "
                "result-class typing.")
 
-_p('C03', ['B2', 'WB', 'N1', 'B1', 'E2', 'E11', 'OPT'],
+_p('C03', ['B2', 'WB', 'N1', 'B1', 'E2', 'E11', 'OPT', 'G5', 'A3', 'F2'],
    decided=["an invalid position, range or value raises and leaves the content as it was: in every public mutator of "
             "BitArray/BitStream no explicit raise (directly, or in a loop through a raising callee) is reachable after the "
             "first change of self (operations over an iterable of positions exempt, by the property's wording)",
@@ -240,7 +240,7 @@ _p('C03', ['B2', 'WB', 'N1', 'B1', 'E2', 'E11', 'OPT'],
                "for write loops from the validated window, dominating-guard facts for helper asserts.",
    floors={'B2': 40})
 
-_p('C14', ['I', 'IDX', 'TY1', 'B3', 'B2', 'N2a', 'A9'],
+_p('C14', ['I', 'IDX', 'TY1', 'B3', 'B2', 'N2a', 'A9', 'N4'],
    decided=["item i occupies bits [i*w, (i+1)*w) with w in bits for every fixed-length dtype incl. byte-multiplier ones: "
             "bit counts (len of data, Dtype.bitlength, itemsize), unit counts (Dtype.length) and item counts are never "
             "mixed in array_.py (three-sorted dimension analysis of every arithmetic, comparison, slice bound, position)",
@@ -268,7 +268,7 @@ _p('C20', ['M', 'D1', 'D5', 'N1', 'N2', 'N2a', 'N3', 'N4', 'N5', 'A5', 'B1', 'PO
                "resolution, global-write census.",
    floors={'M': 1000, 'D1': 150, 'N1': 20, 'N2': 20})
 
-_p('C02', ['H4', 'H2', 'H3', 'LV', 'OPTDEP', 'A7', 'F2'],
+_p('C02', ['H4', 'H2', 'H3', 'LV', 'OPTDEP', 'A7', 'F2', 'F5'],
    decided=["every creation route (constructor keyword, property assignment, token string, Dtype.build, pack, Array "
             "element) and every reading route (property, property with length, Dtype.parse, unpack, read) dispatches "
             "through the registry's set/get/read function for the name, so routes cannot disagree",
@@ -283,7 +283,7 @@ _p('C02', ['H4', 'H2', 'H3', 'LV', 'OPTDEP', 'A7', 'F2'],
    explanation="Role-dispatch census over the creation and reading routes (resolved calls through Dtype.set_fn/get_fn/"
                "read_fn), structural comparison of the integer setters/getters, table agreement.")
 
-_p('C12', ['G1', 'G2', 'G3', 'E8', 'E5', 'E9', 'N1'],
+_p('C12', ['G1', 'G2', 'G3', 'G5', 'E8', 'E5', 'E9', 'N1', 'F2'],
    decided=["switching the option off restores msb0 behaviour exactly; the switch is complete (both tables assign the "
             "same 13 slots, variants differ and agree on parameters, nothing else rebinds a slot)",
             "whole-value interpretations, ==, hash, len, tobytes and the stored bit order of every ingest route are "
